@@ -359,7 +359,7 @@ func execAuth(run *simkit.Run) {
 				conf.Upstream.Tenants = append(conf.Upstream.Tenants, tc)
 			}
 		}})
-		if run.Failed() {
+		if run.Stop() {
 			return
 		}
 	}
@@ -388,7 +388,7 @@ func execAuth(run *simkit.Run) {
 		return
 	}
 	for i, op := range c.Script {
-		if run.Failed() {
+		if run.Stop() {
 			break
 		}
 		run.Step = i
@@ -407,7 +407,7 @@ func execAuth(run *simkit.Run) {
 			w.authExpiry(rr)
 		}
 	}
-	if !run.Failed() && r.Intn(2) == 0 {
+	if !run.Stop() && r.Intn(2) == 0 {
 		w.authShutdown(r)
 	}
 	run.Probe("nontrivial")
